@@ -10,6 +10,7 @@ import (
 	"net/netip"
 	"net/url"
 	"reflect"
+	"slices"
 	"strings"
 	"sync"
 	"sync/atomic"
@@ -59,6 +60,11 @@ func durCase(r *mon.Run, d int64, e, n *int64) {
 	}
 	if err != nil || back != td {
 		r.Violation(fmt.Sprintf("Duration.roundtrip:%d", d), fmt.Sprintf("Duration(%d) -> %q -> %d, err=%v", d, txt, int64(back), err), map[string]any{"codec": "duration", "d": d})
+	}
+	// decoding into a receiver that already holds a value gives the same result as into a fresh one
+	used := timeutil.Duration(d ^ 0x5a5a5a5a5a)
+	if err2 := used.UnmarshalText(txt); err == nil && (err2 != nil || used != td) {
+		r.Violation(fmt.Sprintf("Duration.used-receiver:%d", d), fmt.Sprintf("Duration.UnmarshalText(%q) into a receiver holding another value gives %d, %v; into a fresh one %d", txt, int64(used), err2, d), map[string]any{"codec": "duration", "d": d})
 	}
 }
 
@@ -169,6 +175,11 @@ func TestHostPortPrefix(t *testing.T) {
 	}
 	ports := []uint16{0, 1, 53, 80, 443, 8080, 65535, 65534, 10000}
 	var e, n int64
+	type keptText struct {
+		b []byte
+		s string
+	}
+	var kept []keptText
 	for _, h := range hosts {
 		for _, p := range ports {
 			hp := netutil.HostPort{Host: h, Port: p}
@@ -186,6 +197,24 @@ func TestHostPortPrefix(t *testing.T) {
 			if err = back.UnmarshalText(b); err != nil || back != hp {
 				r.Violation(fmt.Sprintf("HostPort.text:%q:%d", h, p), fmt.Sprintf("HostPort{%q,%d} text round trip via %q = %+v, %v", h, p, b, back, err), map[string]any{"codec": "hostport", "host": h, "port": p})
 			}
+			// a receiver that already holds another value; the caller's text buffer scribbled over afterwards
+			usedHP := netutil.HostPort{Host: "old.example", Port: 1}
+			b2 := slices.Clone(b)
+			err2 := usedHP.UnmarshalText(b2)
+			for i := range b2 {
+				b2[i] = '#'
+			}
+			if err == nil && (err2 != nil || usedHP != hp) {
+				r.Violation(fmt.Sprintf("HostPort.used-receiver:%q:%d", h, p), fmt.Sprintf("HostPort.UnmarshalText(%q) into a used receiver, text buffer overwritten afterwards: %+v, %v; want %+v", b, usedHP, err2, hp), map[string]any{"codec": "hostport", "host": h, "port": p})
+			}
+			// texts handed out earlier stay what they were
+			kept = append(kept, keptText{b, string(b)})
+		}
+	}
+	for _, k := range kept {
+		if string(k.b) != k.s {
+			r.Violation("HostPort.text-retained:"+mon.Q(k.s), fmt.Sprintf("a MarshalText result that read %q when it was returned reads %q after later MarshalText calls", k.s, k.b), map[string]any{"codec": "hostport", "text": k.s})
+			break
 		}
 	}
 	r.Count("hostports", int64(len(hosts)*len(ports)))
@@ -196,6 +225,10 @@ func TestHostPortPrefix(t *testing.T) {
 		e++
 		var p netutil.Prefix
 		err := p.UnmarshalText([]byte(s))
+		usedP := netutil.Prefix{Prefix: netip.MustParsePrefix("203.0.113.0/24")}
+		if err2 := usedP.UnmarshalText([]byte(s)); (err == nil) != (err2 == nil) || (err == nil && usedP != p) {
+			r.Violation("Prefix.used-receiver:"+mon.Q(s), fmt.Sprintf("Prefix.UnmarshalText(%s) into a receiver holding 203.0.113.0/24 gives %v, %v; into a fresh one %v, %v", mon.Q(s), usedP.Prefix, err2, p.Prefix, err), map[string]any{"codec": "prefix", "s": s})
+		}
 		switch {
 		case strings.Contains(s, "/"):
 			want, werr := netip.ParsePrefix(s)
@@ -252,6 +285,7 @@ func TestHostPortPrefix(t *testing.T) {
 type urlLocal struct {
 	prev                                                 *urlutil.URL // the previous accepted URL of this worker
 	e, n, accepted, stdNonIdem, jsonEscaped, invalidUTF8 int64
+	used                                                 *urlutil.URL // one receiver decoded into again and again
 }
 
 func urlCase(r *mon.Run, l *urlLocal, raw string) {
@@ -287,6 +321,16 @@ func urlCase(r *mon.Run, l *urlLocal, raw string) {
 	}
 	if stdOK && len(txt) > 0 && (terr != nil || tb.String() != want) {
 		r.Violation("URL.text:"+mon.Q(raw), fmt.Sprintf("URL %s: text %q decodes to %q, err=%v", mon.Q(raw), txt, tb.String(), terr), map[string]any{"codec": "url", "raw": raw})
+	}
+	// the same receiver decoding URL after URL ends up like a fresh one (no userinfo, fragment or query left over)
+	if len(txt) > 0 && terr == nil {
+		if l.used == nil {
+			l.used = &urlutil.URL{}
+		}
+		if uerr := l.used.UnmarshalText(txt); stdOK && (uerr != nil || l.used.String() != want) {
+			r.Violation("URL.used-receiver:"+mon.Q(raw), fmt.Sprintf("URL %s: decoding its text %q into a receiver that held another URL gives %q, err=%v", mon.Q(raw), txt, l.used.String(), uerr), map[string]any{"codec": "url", "raw": raw})
+			l.used = nil
+		}
 	}
 	for variant := 0; variant < 2; variant++ {
 		var js []byte
